@@ -82,6 +82,16 @@ chk("C15", "schema conformance: rows of unify matched against upper-bound rows o
     "Trusted: syn parse, rustc MIR call graph. How each caller uses the result (hover text) is not decided.",
     "DESIGN.md section 4 C15")
 
+chk("C03", "table agreement (lexer operator constants / token->kind match / enum variants / evaluator dispatch and helper arms) + infix-loop shape of parse_expression (accumulator fold, rhs parser cannot absorb an operator, rotation idiom rejected)",
+    "The grouping structure is decided for chains of any length: a single loop folding BinaryOperator(acc, op, rhs) with an rhs parser that cannot consume a following operator yields left nesting by induction, with one precedence level; the four operator tables agree row by row. Values chains evaluate to are not computed.",
+    "Trusted: syn parse. The shape is a sufficient condition; an equivalent but differently structured parser would be reported (fail closed).",
+    "DESIGN.md section 4 C03")
+
+chk("C04", "MIR assert inventory (no overflow/div assert on signed ints reachable from eval, interval table re-checked) + syntax op-table per operator arm, zero/negative guards, sibling agreement of += with +, operand order",
+    "Necessary structural clauses for every operator arm and every signed arithmetic site reachable from the evaluator: documented Rust operation on (lhs, rhs), guards present, unrepresentable results raise, compound assignment agrees with the binary operator. Numerical results are taken from Rust's definitions, not computed.",
+    "Trusted: rustc MIR (overflow checks on), syn parse, Rust's wrapping_*/checked_* semantics.",
+    "DESIGN.md section 4 C04")
+
 ENGINES = [
  {"name": "gfacts", "path": "tools/gfacts", "kind_free_text": "rustc_private driver (nightly) dumping the type-checked MIR (CFG, resolved callees, asserts, places with field names) of every function of the garden crate as JSON; run as RUSTC_WORKSPACE_WRAPPER under cargo +nightly check on /repo's current tree"},
  {"name": "gshape", "path": "tools/gshape", "kind_free_text": "syn-2 syntax tree dumper (match arms, patterns, literals, struct initialisers) for table/shape rules"},
